@@ -1004,6 +1004,20 @@ class UniformTime(np.ndarray, TimeInterface):
         else:
             return self
 
+    # Arithmetic and comparison read a bare number in this object's own time
+    # unit and give whole base units, exactly as TimeArray does (without
+    # these, ``t + 1`` on a millisecond axis added one picosecond):
+    _convert_if_needed = TimeArray._convert_if_needed
+    __add__ = TimeArray.__add__
+    __sub__ = TimeArray.__sub__
+    __radd__ = TimeArray.__radd__
+    __rsub__ = TimeArray.__rsub__
+    __lt__ = TimeArray.__lt__
+    __gt__ = TimeArray.__gt__
+    __le__ = TimeArray.__le__
+    __ge__ = TimeArray.__ge__
+    __eq__ = TimeArray.__eq__
+
     def __div__(self, d):
         """Division by another time object eliminates units """
         if isinstance(d, TimeInterface):
